@@ -199,7 +199,9 @@ def fam_pre(U, v, var):
         pres = list(reversed(pres))
     if pres:
         t.add_pretasks(*pres)
-    inits = [getattr(U, c)(z=v.cint()) for c in init]
+    # (same payloads as the pre-tasks: a lightweight task moved from the
+    # pre-task set to the init-task sequence is one structural edit)
+    inits = [getattr(U, c)(z=zs[i]) for i, c in enumerate(init)]
     graphs.dry_submit(t, init_tasks=inits)
     return t
 
